@@ -537,12 +537,22 @@ func (f *followingQuery) Select(t iterator) NodeNavigator {
 				}
 			} else {
 				var q *descendantQuery // descendant query
+				fromAttr := node.NodeType() == AttributeNode
 				f.iterator = func() NodeNavigator {
 					for {
 						if q == nil {
-							for !node.MoveToNext() {
-								if !node.MoveToParent() {
-									return nil
+							if fromAttr {
+								// The children of the attribute's owner element follow the attribute.
+								fromAttr = false
+								node.MoveToParent()
+								if !node.MoveToChild() {
+									continue
+								}
+							} else {
+								for !node.MoveToNext() {
+									if !node.MoveToParent() {
+										return nil
+									}
 								}
 							}
 							q = &descendantQuery{
